@@ -1,2 +1,4 @@
-/- C15 — class independence: the frame theorems are in Props/C05World.lean (namespace Dsd.C05). -/
+/- C15 — class independence: the frame theorems for requests are in Props/C05World.lean (namespace Dsd.C05), the theorems
+   about the reader honouring its configured classes in Props/C15Reader.lean. -/
 import DsdVerif.Props.C05World
+import DsdVerif.Props.C15Reader
